@@ -22,6 +22,7 @@ class Prop(BaseProp):
                 "C10_bad_char", "C10_checksum_sound", "C10_too_short", "C10_wrong_checksum",
                 "C10_checksum_roundtrip"]
     exec_modules = ["Exec.C10"]
+    extra_modules = {"C10Src": ["C10_source_encode_is_model", "C10_source_encode_decodes_back", "C10_source_leading_zeros", "C10_source_checksum_encode_is_model", "C10_source_translated"]}
     pysem_funcs = ['helper.encode_base58', 'helper.encode_base58_checksum', 'helper.decode_base58', 'helper.decode_base58_checksum', 'helper.b58decode_addr']
     shard = 32
     exec_import = "From BHW Require Import Lib.Base Exec.Common Exec.C10.\nFrom Coq Require Import String.\nOpen Scope string_scope."
